@@ -83,7 +83,7 @@ def mkey(e, why):
         v = e["v"]
         return "lat:s=%d:k=%d:zq=%d:rho2=%d:%s" % (v["s"], v["k"], v["zq"], v["rho2"], why)
     if e["ev"] == "helix":
-        return "helix:%s:tol=%d:starts=%d:%s" % (e["name"], e["tolu"], e["starts"], why)
+        return "helix:%s:tol=%d:starts=%d:%s%s" % (e["name"], e["tolu"], e["starts"], "rod%d:" % e["long"] if e.get("long") else "", why)
     if e["ev"] in ("mate", "boltnut"):
         return "%s:%s:tole=%d:toli=%d:%s" % (e["ev"], e["name"], e["tole"], e["toli"], why)
     return "%s:%s:%s" % (e["ev"], e.get("name", "?"), why)
@@ -201,11 +201,13 @@ def run(chk, replay):
     if mbad:
         names = sorted({e["name"] for e, _ in mbad})
         o2, b2 = measure_and_judge(chk, names)
-        again = {mkey(e, why) for e, why in b2}
+        # the probes are random: a measurement reproduces when the same measurement (designation, tolerance,
+        # starts, rod) is rejected again, whichever of its clauses fails first this time
+        again = {mkey(e, "") for e, why in b2}
         reported = set()
         for e, why in mbad:
             k = mkey(e, why)
-            if k not in again:
+            if mkey(e, "") not in again:
                 raise vlib.Inconclusive("rejected measurement did not reproduce: " + k)
             if k in reported:
                 continue
